@@ -348,6 +348,8 @@ void FilePiece::ReadShift() {
       position_end_ = position_ + valid_length;
     } else {
       std::size_t moving = position_end_ - position_;
+      // The consumed prefix is discarded, so the buffer now starts later in the file.
+      mapped_offset_ += position_ - data_.begin();
       memmove(data_.get(), position_, moving);
       position_ = data_.begin();
       position_end_ = position_ + moving;
